@@ -1,6 +1,7 @@
 package commitlog
 
 import (
+	"io"
 	"sync"
 	"time"
 
@@ -88,11 +89,14 @@ func (c *compactCleaner) compact(hw int64, segments []*segment) ([]*segment,
 	// Compact messages up to the last segment or HW, whichever is first, by
 	// scanning keys and retaining only the latest.
 	// TODO: Implement option for configuring minimum compaction lag.
+	keyOffsets, err := c.scanKeys(hw, segments)
+	if err != nil {
+		return nil, nil, 0, err
+	}
 	var (
 		compacted  = make([]*segment, 0, len(segments))
 		epochCache = newLeaderEpochCacheNoFile(c.Name, c.Logger)
 		removed    = 0
-		keyOffsets = c.scanKeys(hw, segments)
 	)
 
 	// Write new segments. Skip the last segment since we will not compact it.
@@ -114,7 +118,14 @@ func (c *compactCleaner) compact(hw int64, segments []*segment) ([]*segment,
 
 	// Maintain start offset for each new leader epoch for the last segment.
 	ss := newSegmentScanner(last)
-	for ms, _, err := ss.Scan(); err == nil; ms, _, err = ss.Scan() {
+	for {
+		ms, _, err := ss.Scan()
+		if err == io.EOF {
+			break
+		}
+		if err != nil {
+			return nil, nil, 0, err
+		}
 		leaderEpoch := ms.LeaderEpoch()
 		if leaderEpoch > epochCache.LastLeaderEpoch() {
 			if err := epochCache.Assign(leaderEpoch, ms.Offset()); err != nil {
@@ -137,7 +148,17 @@ func (c *compactCleaner) cleanSegment(seg *segment, keyOffsets *sync.Map, hw int
 		ss      = newSegmentScanner(seg)
 		removed = 0
 	)
-	for ms, _, err := ss.Scan(); err == nil; ms, _, err = ss.Scan() {
+	for {
+		// Only the end of the segment ends the scan. Any other error, e.g. the
+		// segment was closed, means the remaining messages were not read, so
+		// the segment must not be replaced or removed.
+		ms, _, err := ss.Scan()
+		if err == io.EOF {
+			break
+		}
+		if err != nil {
+			return nil, removed, err
+		}
 		var (
 			offset       = ms.Offset()
 			key          = ms.Message().Key()
@@ -181,7 +202,7 @@ func (c *compactCleaner) cleanSegment(seg *segment, keyOffsets *sync.Map, hw int
 	return cleaned, removed, nil
 }
 
-func (c *compactCleaner) scanKeys(hw int64, segments []*segment) *sync.Map {
+func (c *compactCleaner) scanKeys(hw int64, segments []*segment) (*sync.Map, error) {
 	var (
 		wg            sync.WaitGroup
 		keyOffsets    = new(sync.Map)
@@ -192,9 +213,10 @@ func (c *compactCleaner) scanKeys(hw int64, segments []*segment) *sync.Map {
 		numGoroutines = len(segments)
 	}
 
+	errC := make(chan error, numGoroutines)
 	wg.Add(numGoroutines)
 	for i := 0; i < numGoroutines; i++ {
-		go c.scanSegments(hw, segmentC, &wg, keyOffsets)
+		go c.scanSegments(hw, segmentC, &wg, keyOffsets, errC)
 	}
 
 	for _, seg := range segments {
@@ -203,14 +225,30 @@ func (c *compactCleaner) scanKeys(hw int64, segments []*segment) *sync.Map {
 	close(segmentC)
 
 	wg.Wait()
-	return keyOffsets
+	select {
+	case err := <-errC:
+		return nil, err
+	default:
+	}
+	return keyOffsets, nil
 }
 
-func (c *compactCleaner) scanSegments(hw int64, ch <-chan *segment, wg *sync.WaitGroup, keyOffsets *sync.Map) {
+func (c *compactCleaner) scanSegments(hw int64, ch <-chan *segment, wg *sync.WaitGroup,
+	keyOffsets *sync.Map, errC chan<- error) {
 LOOP:
 	for seg := range ch {
 		ss := newSegmentScanner(seg)
-		for ms, _, err := ss.Scan(); err == nil; ms, _, err = ss.Scan() {
+		for {
+			ms, _, err := ss.Scan()
+			if err == io.EOF {
+				break
+			}
+			if err != nil {
+				// The keys in the rest of the segment are unknown, so
+				// compaction cannot tell which messages to retain.
+				errC <- err
+				break LOOP
+			}
 			offset := ms.Offset()
 			if offset > hw {
 				break LOOP
